@@ -28,4 +28,15 @@ def c16(prop, tier, res, replay=None):
         "DNS rebinding between check and dial is outside the property (\"at the time of the check\"); redirect scenarios run against loopback httptest servers through a custom dialer"], replay)
 
 
-TABLE = {"C06": c06, "C16": c16}
+INGRESS = dict(sub="ingress", mode="ingress", family="ingress", shards=q(4, 16),
+               args=lambda tier, sd, sh: ["-seed", sd * 1000 + sh, "-configs", 120 if tier == "quick" else 1200, "-requests", 20 if tier == "quick" else 40],
+               key_fields=["k", "in", "cfg"])
+
+
+def c10(prop, tier, res, replay=None):
+    return pure.check_cases(prop, tier, res, [INGRESS], [
+        "configurations are generated as text and go through the real parser and compiler; requests are constructed http.Request values (no TLS/SNI, RemoteAddr set directly)",
+        "path.Clean, url query parsing and header canonicalisation are net/http's; the model receives the cleaned path and parsed maps"], replay)
+
+
+TABLE = {"C06": c06, "C16": c16, "C10": c10}
